@@ -34,7 +34,7 @@ from __future__ import annotations
 
 import ast
 
-from ..astutil import attr_chain, callee_name, calls, handler_types, is_name, text, unwrap_await
+from ..astutil import call_recv, attr_chain, callee_name, calls, handler_types, is_name, text, unwrap_await
 from ..core import Result
 from ..model import AnchorMissing, Repo, walk_no_nested
 
@@ -110,10 +110,19 @@ def run(repo: Repo) -> Result:
             res.add("C13-INTERRUPT", q, "continue", "ForNode must turn ContinueLoop into `continue`", f.file, f.line)
         if b is None or not (len(b.body) == 1 and isinstance(b.body[0], ast.Break)):
             res.add("C13-INTERRUPT", q, "break", "ForNode must turn BreakLoop into `break`", f.file, f.line)
-        # the try wraps the body render inside the item loop
+        # the try wraps the body render inside the item loop (the loop over the local bound to
+        # the ForLoop(...) helper, whatever it is called)
+        helper_vars = {st0.targets[0].id for st0 in ast.walk(f.node) if isinstance(st0, ast.Assign) and len(st0.targets) == 1 and isinstance(st0.targets[0], ast.Name) and isinstance(st0.value, ast.Call) and callee_name(st0.value) == "ForLoop"}
+        # ... or the object handed to `context.loop(namespace, <helper>)`
+        for w0 in ast.walk(f.node):
+            if isinstance(w0, (ast.With, ast.AsyncWith)):
+                for i0 in w0.items:
+                    c0 = i0.context_expr
+                    if isinstance(c0, ast.Call) and callee_name(c0) == "loop" and len(c0.args) >= 2 and isinstance(c0.args[1], ast.Name):
+                        helper_vars.add(c0.args[1].id)
         ok = False
         for loop in ast.walk(f.node):
-            if isinstance(loop, ast.For) and is_name(loop.iter, "forloop"):
+            if isinstance(loop, ast.For) and isinstance(loop.iter, ast.Name) and loop.iter.id in helper_vars:
                 for st in loop.body:
                     if isinstance(st, ast.Try) and any(callee_name(x) in ("render", "render_async") for s in st.body for x in calls(s)) and len(st.handlers) == 2:
                         ok = True
@@ -125,7 +134,13 @@ def run(repo: Repo) -> Result:
         t = text(f.node)
         if "except BreakLoop:\n    if self.interrupts:\n        _break = True\n    else:\n        raise" not in t.replace("                ", "").replace("            ", "") and "if self.interrupts:" not in t:
             res.add("C13-INTERRUPT", q, "break", "TablerowNode must honour BreakLoop through its interrupts flag", f.file, f.line)
-        if "if _break:" not in t or "_break = True" not in t:
+        # the flag set in the BreakLoop handler is tested after the cell is closed: `if <flag>: break`
+        flags = set()
+        for h0 in ast.walk(f.node):
+            if isinstance(h0, ast.ExceptHandler) and "BreakLoop" in handler_types(h0):
+                flags |= {a0.targets[0].id for a0 in ast.walk(h0) if isinstance(a0, ast.Assign) and len(a0.targets) == 1 and isinstance(a0.targets[0], ast.Name) and isinstance(a0.value, ast.Constant) and a0.value.value is True}
+        leaves = any(isinstance(n0, ast.If) and isinstance(n0.test, ast.Name) and n0.test.id in flags and any(isinstance(x0, ast.Break) for x0 in n0.body) for n0 in ast.walk(f.node))
+        if not flags or not leaves:
             res.add("C13-INTERRUPT", q, "break-flag", "TablerowNode must leave the row loop after a break (closing the cell first)", f.file, f.line)
     import copy as _copy
 
@@ -254,16 +269,34 @@ def run(repo: Repo) -> Result:
         f = repo.func(q)
         res.ob(f"else:{q}")
         body = [s for s in f.node.body if not (isinstance(s, ast.Expr) and isinstance(s.value, ast.Constant))]
-        ok = (
-            len(body) == 3
-            and isinstance(body[0], ast.Assign)
-            and text(body[0].targets[0]) == "(it, length)"
-            and isinstance(body[1], ast.If)
-            and is_name(body[1].test, "length")
-            and isinstance(body[1].body[-1], ast.Return)
-            and isinstance(body[2], ast.Return)
-            and text(body[2]) in ("return self.default.render(context, buffer) if self.default else 0", "return await self.default.render_async(context, buffer) if self.default else 0")
-        )
+        # path conditions: the loop runs only where the sliced length is non-zero, the else block
+        # is rendered only where it is zero (names taken from `<it>, <length> = ...evaluate*(...)`)
+        from ..guards import canon as _canon
+        from ..guards import conditions as _conditions
+
+        pr = None
+        for st0 in ast.walk(f.node):
+            if isinstance(st0, ast.Assign) and isinstance(st0.targets[0], ast.Tuple) and len(st0.targets[0].elts) == 2 and all(isinstance(e, ast.Name) for e in st0.targets[0].elts) and isinstance(unwrap_await(st0.value), ast.Call) and callee_name(unwrap_await(st0.value)) in ("evaluate", "evaluate_async"):
+                pr = (st0.targets[0].elts[0].id, st0.targets[0].elts[1].id)
+        ok = pr is not None
+        if ok:
+            L_ = pr[1]
+            nonzero = {_canon(ast.parse(x, mode="eval").body) for x in (L_, f"{L_} > 0", f"{L_} != 0", f"{L_} >= 1")}
+            zero = {_canon(ast.parse(x, mode="eval").body) for x in (f"not {L_}", f"{L_} == 0", f"{L_} <= 0", f"{L_} < 1")}
+            saw_loop = saw_else = False
+            for st0, cs in _conditions(f.node):
+                cc = {_canon(c) for c in cs}
+                if isinstance(st0, (ast.With, ast.AsyncWith)) and any(isinstance(i.context_expr, ast.Call) and callee_name(i.context_expr) == "loop" for i in st0.items):
+                    saw_loop = True
+                    ok = ok and bool(cc & nonzero)
+                if isinstance(st0, ast.Return) and st0.value is not None and "self.default" in text(st0.value):
+                    saw_else = True
+                    v0 = st0.value
+                    # `<render default> if self.default else 0`
+                    v0 = unwrap_await(v0)
+                    shape = isinstance(v0, ast.IfExp) and text(v0.test) in ("self.default", "self.default is not None") and isinstance(v0.orelse, ast.Constant) and v0.orelse.value == 0
+                    ok = ok and shape and bool(cc & zero) and any(isinstance(c0, ast.Call) and callee_name(c0) in ("render", "render_async") and text(call_recv(c0)) == "self.default" for c0 in ast.walk(v0.body))
+            ok = ok and saw_loop and saw_else
         if not ok:
             res.add("C13-SHAPE", q, "else-iff-empty", "ForNode must render the loop when the sliced length is non-zero and its else block otherwise", f.file, f.line)
         # the ForLoop helper (possibly built in an extracted private method: helpers are inlined)
@@ -272,7 +305,7 @@ def run(repo: Repo) -> Result:
 
         nnode = normalize(repo, f, aliases=False)
         fl = [c for c in ast.walk(nnode) if isinstance(c, ast.Call) and callee_name(c) == "ForLoop"]
-        pair = text(body[0].targets[0]).strip("()").split(", ") if body and isinstance(body[0], ast.Assign) else []
+        pair = list(pr) if pr is not None else []
         okf = False
         if len(fl) == 1 and len(pair) == 2:
             kw = {k.arg: text(k.value) for k in fl[0].keywords}
